@@ -132,7 +132,7 @@ instance (s : Nat) (t : List Chunk) : Decidable (Contig s t) :=
   decidable_of_iff _ (contigB_iff s t)
 
 theorem contig_ge {s : Nat} {t : List Chunk} (h : Contig s t) :
-    ∀ i e, t[i]? = some e → s ≤ e.off ∧ 0 < e.size ∧ e.off + e.size ≤ s + total t := by
+    ∀ (i : Nat) (e : Chunk), t[i]? = some e → s ≤ e.off ∧ 0 < e.size ∧ e.off + e.size ≤ s + total t := by
   induction t generalizing s with
   | nil => intro i e he; simp at he
   | cons c cs ih =>
@@ -154,7 +154,7 @@ theorem contig_head {s : Nat} {t : List Chunk} (h : Contig s t) (e : Chunk) (he 
   | cons c cs => simp at he; subst he; exact h.1
 
 theorem contig_next {s : Nat} {t : List Chunk} (h : Contig s t) :
-    ∀ i e e', t[i]? = some e → t[i + 1]? = some e' → e'.off = e.off + e.size := by
+    ∀ (i : Nat) (e e' : Chunk), t[i]? = some e → t[i + 1]? = some e' → e'.off = e.off + e.size := by
   induction t generalizing s with
   | nil => intro i e e' he; simp at he
   | cons c cs ih =>
@@ -170,7 +170,7 @@ theorem contig_next {s : Nat} {t : List Chunk} (h : Contig s t) :
       exact ih h3 i e e' he he'
 
 theorem contig_last {s : Nat} {t : List Chunk} (h : Contig s t) :
-    ∀ i e, t[i]? = some e → t[i + 1]? = none → e.off + e.size = s + total t := by
+    ∀ (i : Nat) (e : Chunk), t[i]? = some e → t[i + 1]? = none → e.off + e.size = s + total t := by
   induction t generalizing s with
   | nil => intro i e he; simp at he
   | cons c cs ih =>
@@ -183,12 +183,12 @@ theorem contig_last {s : Nat} {t : List Chunk} (h : Contig s t) :
       | nil => simp [total]; omega
       | cons d ds => simp at hn
     | succ i =>
-      simp at he hn
+      rw [List.getElem?_cons_succ] at he hn
       have := ih h3 i e he hn
       simp only [total]; omega
 
 theorem contig_mono {s : Nat} {t : List Chunk} (h : Contig s t) :
-    ∀ a b ea eb, t[a]? = some ea → t[b]? = some eb → a < b → ea.off + ea.size ≤ eb.off := by
+    ∀ (a b : Nat) (ea eb : Chunk), t[a]? = some ea → t[b]? = some eb → a < b → ea.off + ea.size ≤ eb.off := by
   induction t generalizing s with
   | nil => intro a b ea eb he; simp at he
   | cons c cs ih =>
@@ -248,7 +248,8 @@ theorem search_lookup {t : List Chunk} (h : Contig 0 t) (x : Nat) :
           have hnone : t[t.length - 1 + 1]? = none := List.getElem?_eq_none (by omega)
           have hend := contig_last h _ _ hek hnone
           have hf := hlo (t.length - 1) (by omega)
-          have := (chunkPred_iff h x _ _ hek).not.mp (by rw [hf]; simp)
+          have : ¬ x < t[t.length - 1].off + t[t.length - 1].size := fun hc => by
+            have := (chunkPred_iff h x _ _ hek).mpr hc; rw [hf] at this; cases this
           omega
     have her : t[r]? = some t[r] := List.getElem?_eq_getElem hrn
     refine ⟨t[r], her, ?_, ?_⟩
@@ -258,7 +259,8 @@ theorem search_lookup {t : List Chunk} (h : Contig 0 t) (x : Nat) :
         have hr' : r < t.length := by omega
         have her' : t[r]? = some t[r] := List.getElem?_eq_getElem hr'
         have hf := hlo r (by omega)
-        have h1 := (chunkPred_iff h x _ _ her').not.mp (by rw [hf]; simp)
+        have h1 : ¬ x < t[r].off + t[r].size := fun hc => by
+          have := (chunkPred_iff h x _ _ her').mpr hc; rw [hf] at this; cases this
         have h2 := contig_next h r _ _ her' her
         omega
     · exact (chunkPred_iff h x _ _ her).mp (hhi hrn)
@@ -327,5 +329,450 @@ theorem contig_mem_bounds {s : Nat} {t : List Chunk} (h : Contig s t) (c : Chunk
     s ≤ c.off ∧ 0 < c.size ∧ c.off + c.size ≤ s + total t := by
   obtain ⟨i, hi⟩ := List.getElem?_of_mem hc
   exact contig_ge h i c hi
+
+
+/-! ### the cache invariant and the read loop -/
+
+/-- The bytes the tar payload has for a chunk. -/
+def trueChunk (content : Nat → Bytes) (id : ChunkId) : Bytes := slice (content id.file) id.off id.size
+
+/-- `CacheOK`: every cached entry is a prefix of the genuine chunk (an entry may have lost its tail,
+it never holds foreign bytes). -/
+def CacheOK (content : Nat → Bytes) (c : Cache) : Prop :=
+  ∀ id d, c id = some d → ∃ k, d = (trueChunk content id).take k
+
+/-- every cached entry is the complete genuine chunk -/
+def CacheExact (content : Nat → Bytes) (c : Cache) : Prop :=
+  ∀ id d, c id = some d → d = trueChunk content id
+
+/-- What is accepted from below is genuine: with verification on this is collision resistance of the
+digest plus "the TOC records the digests of the tar payload" (C01/C03); with verification off it
+says the blob bytes are the built ones. -/
+def Honest (content : Nat → Bytes) (E : Env) (u : Under) : Prop :=
+  ∀ id b, u id = some b → b.length = id.size → E.verify id b = true → b = trueChunk content id
+
+/-- The chunk table of a file tiles its payload (`FromTar`, established per blob by C03). -/
+structure WF (content : Nat → Bytes) (f : FileInfo) : Prop where
+  contig : Contig 0 f.table
+  cover : total f.table = (content f.id).length
+  size : f.size = (content f.id).length
+
+theorem CacheExact.ok {content : Nat → Bytes} {c : Cache} (h : CacheExact content c) : CacheOK content c := by
+  intro id d hd
+  exact ⟨(trueChunk content id).length, by rw [h id d hd, List.take_length]⟩
+
+theorem cacheOK_empty (content : Nat → Bytes) : CacheOK content Cache.empty := by
+  intro id d h; simp [Cache.empty] at h
+
+theorem cacheExact_empty (content : Nat → Bytes) : CacheExact content Cache.empty := by
+  intro id d h; simp [Cache.empty] at h
+
+theorem cacheOK_put {content : Nat → Bytes} {c : Cache} (h : CacheOK content c) (id : ChunkId) :
+    CacheOK content (c.put id (trueChunk content id)) := by
+  intro k d hd
+  unfold Cache.put at hd
+  by_cases hk : k = id
+  · simp only [hk, if_true] at hd
+    cases hd
+    subst hk
+    exact ⟨(trueChunk content k).length, by rw [List.take_length]⟩
+  · simp only [hk, if_false] at hd; exact h k d hd
+
+theorem cacheExact_put {content : Nat → Bytes} {c : Cache} (h : CacheExact content c) (id : ChunkId) :
+    CacheExact content (c.put id (trueChunk content id)) := by
+  intro k d hd
+  unfold Cache.put at hd
+  by_cases hk : k = id
+  · simp only [hk, if_true] at hd; cases hd; subst hk; rfl
+  · simp only [hk, if_false] at hd; exact h k d hd
+
+theorem cacheOK_evict {content : Nat → Bytes} {c : Cache} (h : CacheOK content c) (id : ChunkId) :
+    CacheOK content (c.evict id) := by
+  intro k d hd
+  unfold Cache.evict at hd
+  by_cases hk : k = id
+  · simp [hk] at hd
+  · simp only [hk, if_false] at hd; exact h k d hd
+
+theorem cacheExact_evict {content : Nat → Bytes} {c : Cache} (h : CacheExact content c) (id : ChunkId) :
+    CacheExact content (c.evict id) := by
+  intro k d hd
+  unfold Cache.evict at hd
+  by_cases hk : k = id
+  · simp [hk] at hd
+  · simp only [hk, if_false] at hd; exact h k d hd
+
+theorem cacheOK_truncate {content : Nat → Bytes} {c : Cache} (h : CacheOK content c) (id : ChunkId) (n : Nat) :
+    CacheOK content (c.truncate id n) := by
+  intro k d hd
+  unfold Cache.truncate at hd
+  by_cases hk : k = id
+  · simp only [hk, if_true] at hd
+    cases hc : c id with
+    | none => simp [hc] at hd
+    | some d0 =>
+      simp [hc] at hd
+      obtain ⟨m, hm⟩ := h id d0 hc
+      subst hk
+      exact ⟨min n m, by rw [← hd, hm, List.take_take]⟩
+  · simp only [hk, if_false] at hd; exact h k d hd
+
+theorem preStore_ok {content : Nat → Bytes} {E : Env} {u : Under} (hu : Honest content E u) :
+    ∀ (l : List ChunkId) (c : Cache), CacheOK content c → CacheOK content (preStore E u c l).1 := by
+  intro l
+  induction l with
+  | nil => intro c h; exact h
+  | cons e es ih =>
+    intro c h
+    unfold preStore
+    cases hc : c e with
+    | some d => simp only []; exact ih c h
+    | none =>
+      simp only []
+      cases hue : u e with
+      | none => exact h
+      | some b =>
+        simp only []
+        by_cases hv : b.length = e.size ∧ E.verify e b = true
+        · simp only [hv, and_self, if_true]
+          have := hu e b hue hv.1 hv.2
+          subst this
+          exact ih _ (cacheOK_put h e)
+        · simp only [hv, if_false]; exact h
+
+theorem preStore_exact {content : Nat → Bytes} {E : Env} {u : Under} (hu : Honest content E u) :
+    ∀ (l : List ChunkId) (c : Cache), CacheExact content c → CacheExact content (preStore E u c l).1 := by
+  intro l
+  induction l with
+  | nil => intro c h; exact h
+  | cons e es ih =>
+    intro c h
+    unfold preStore
+    cases hc : c e with
+    | some d => simp only []; exact ih c h
+    | none =>
+      simp only []
+      cases hue : u e with
+      | none => exact h
+      | some b =>
+        simp only []
+        by_cases hv : b.length = e.size ∧ E.verify e b = true
+        · simp only [hv, and_self, if_true]
+          have := hu e b hue hv.1 hv.2
+          subst this
+          exact ih _ (cacheExact_put h e)
+        · simp only [hv, if_false]; exact h
+
+/-- entries never disappear in `preStore` -/
+theorem preStore_keeps {E : Env} {u : Under} :
+    ∀ (l : List ChunkId) (c : Cache) (k : ChunkId), c k ≠ none → (preStore E u c l).1 k ≠ none := by
+  intro l
+  induction l with
+  | nil => intro c k h; exact h
+  | cons e es ih =>
+    intro c k h
+    unfold preStore
+    cases hc : c e with
+    | some d => simp only []; exact ih c k h
+    | none =>
+      simp only []
+      cases hue : u e with
+      | none => exact h
+      | some b =>
+        simp only []
+        by_cases hv : b.length = e.size ∧ E.verify e b = true
+        · simp only [hv, and_self, if_true]
+          apply ih
+          unfold Cache.put
+          by_cases hk : k = e
+          · simp [hk]
+          · simp only [hk, if_false]; exact h
+        · simp only [hv, if_false]; exact h
+
+/-- `fetchChunk`: the cache invariant survives (also on failure), and a delivered chunk is the genuine,
+complete one. -/
+theorem fetchChunk_ok {content : Nat → Bytes} {E : Env} {u : Under} (hu : Honest content E u)
+    (c : Cache) (id : ChunkId) (h : CacheOK content c) :
+    CacheOK content (fetchChunk E u c id).1 ∧
+      ∀ b, (fetchChunk E u c id).2 = some b → b = trueChunk content id ∧ b.length = id.size := by
+  unfold fetchChunk
+  cases hco : E.co id with
+  | none => exact ⟨h, by intro b hb; simp at hb⟩
+  | some others =>
+    simp only []
+    have hp := preStore_ok hu others c h
+    rcases hps : preStore E u c others with ⟨c1, ok⟩
+    rw [hps] at hp
+    cases ok with
+    | false => exact ⟨hp, by intro b hb; simp at hb⟩
+    | true =>
+      simp only []
+      cases hui : u id with
+      | none => exact ⟨hp, by intro b hb; simp at hb⟩
+      | some b =>
+        simp only []
+        by_cases hv : b.length = id.size ∧ E.verify id b = true
+        · simp only [hv, and_self, if_true]
+          have hb := hu id b hui hv.1 hv.2
+          subst hb
+          exact ⟨cacheOK_put hp id, by intro b' hb'; cases hb'; exact ⟨rfl, hv.1⟩⟩
+        · simp only [hv, if_false]; exact ⟨hp, by intro b' hb'; simp at hb'⟩
+
+theorem fetchChunk_exact {content : Nat → Bytes} {E : Env} {u : Under} (hu : Honest content E u)
+    (c : Cache) (id : ChunkId) (h : CacheExact content c) :
+    CacheExact content (fetchChunk E u c id).1 := by
+  unfold fetchChunk
+  cases hco : E.co id with
+  | none => exact h
+  | some others =>
+    simp only []
+    have hp := preStore_exact hu others c h
+    rcases hps : preStore E u c others with ⟨c1, ok⟩
+    rw [hps] at hp
+    cases ok with
+    | false => exact hp
+    | true =>
+      simp only []
+      cases hui : u id with
+      | none => exact hp
+      | some b =>
+        simp only []
+        by_cases hv : b.length = id.size ∧ E.verify id b = true
+        · simp only [hv, and_self, if_true]
+          have hb := hu id b hui hv.1 hv.2
+          subst hb
+          exact cacheExact_put hp id
+        · simp only [hv, if_false]; exact hp
+
+theorem fetchChunk_keeps {E : Env} {u : Under} (c : Cache) (id k : ChunkId) (h : c k ≠ none) :
+    (fetchChunk E u c id).1 k ≠ none := by
+  unfold fetchChunk
+  cases hco : E.co id with
+  | none => exact h
+  | some others =>
+    simp only []
+    have hp := preStore_keeps (E := E) (u := u) others c k h
+    rcases hps : preStore E u c others with ⟨c1, ok⟩
+    rw [hps] at hp
+    cases ok with
+    | false => exact hp
+    | true =>
+      simp only []
+      cases hui : u id with
+      | none => exact hp
+      | some b =>
+        simp only []
+        by_cases hv : b.length = id.size ∧ E.verify id b = true
+        · simp only [hv, and_self, if_true]
+          unfold Cache.put
+          by_cases hk : k = id
+          · simp [hk]
+          · simp only [hk, if_false]; exact hp
+        · simp only [hv, if_false]; exact hp
+
+/-- a successful `fetchChunk` leaves the chunk in the cache -/
+theorem fetchChunk_stores {E : Env} {u : Under} (c : Cache) (id : ChunkId) (b : Bytes)
+    (h : (fetchChunk E u c id).2 = some b) : (fetchChunk E u c id).1 id ≠ none := by
+  unfold fetchChunk at *
+  cases hco : E.co id with
+  | none => simp [hco] at h
+  | some others =>
+    simp only [hco] at h ⊢
+    rcases hps : preStore E u c others with ⟨c1, ok⟩
+    rw [hps] at h ⊢
+    cases ok with
+    | false => simp at h
+    | true =>
+      simp only [] at h ⊢
+      cases hui : u id with
+      | none => simp [hui] at h
+      | some b0 =>
+        simp only [hui] at h ⊢
+        by_cases hv : b0.length = id.size ∧ E.verify id b0 = true
+        · simp only [hv, and_self, if_true] at h ⊢
+          simp [Cache.put]
+        · simp [hv] at h
+
+/-- Position `y` is not strictly inside any chunk. -/
+def NotInside (t : List Chunk) (y : Nat) : Prop := ∀ c ∈ t, ¬ (c.off < y ∧ y < c.off + c.size)
+
+theorem trueChunk_length {content : Nat → Bytes} {f : FileInfo} (hf : WF content f) (ch : Chunk)
+    (hc : ch ∈ f.table) : (trueChunk content ⟨f.id, ch.off, ch.size⟩).length = ch.size := by
+  have := contig_mem_bounds hf.contig ch hc
+  have := hf.cover
+  simp [trueChunk]; omega
+
+/-- One round of the loop appends the right bytes: used by both loop theorems. -/
+theorem round_facts {content : Nat → Bytes} {f : FileInfo} (hf : WF content f) (off n nr : Nat)
+    (hnr : nr < n) (hinv : nr = 0 ∨ NotInside f.table (off + nr)) (ch : Chunk) (hc : ch ∈ f.table)
+    (h1 : ch.off ≤ off + nr) (h2 : off + nr < ch.off + ch.size) :
+    let lower := off - ch.off
+    let upper := ch.off + ch.size - (off + n)
+    let expected := ch.size - upper - lower
+    ch.off + lower = off + nr ∧ lower + expected ≤ ch.size ∧
+    (expected ≤ n - nr → (nr + expected = n ∨ NotInside f.table (off + (nr + expected)))) ∧
+    (0 < expected) ∧ ((upper = 0 → expected ≤ n - nr) ∧ (0 < upper → expected = n - nr)) := by
+  intro lower upper expected
+  have hb := contig_mem_bounds hf.contig ch hc
+  have hstart : ch.off + lower = off + nr := by
+    rcases hinv with h0 | hni
+    · subst h0; simp only [lower]; omega
+    · have := hni ch hc
+      simp only [lower]; omega
+  refine ⟨hstart, by simp only [expected, lower, upper]; omega, ?_, by simp only [expected, lower, upper] at *; omega,
+    by simp only [expected, lower, upper] at *; omega, by simp only [expected, lower, upper] at *; omega⟩
+  intro hle
+  by_cases hup : upper = 0
+  · right
+    have : off + (nr + expected) = ch.off + ch.size := by simp only [expected, lower, upper] at *; omega
+    rw [this]
+    intro c' hc'
+    exact contig_end_not_inside hf.contig ch c' hc hc'
+  · left; simp only [expected, lower, upper] at *; omega
+
+/-- Exactness of the loop: whatever the cache holds (within `CacheOK`) and whatever comes from below
+(within `Honest`), an `.ok` result is the slice of the tar payload, and `CacheOK` is kept. -/
+theorem readLoop_exact {content : Nat → Bytes} {E : Env} {u : Under} {f : FileInfo}
+    (hf : WF content f) (hu : Honest content E u) (off n : Nat) :
+    ∀ (fuel : Nat) (c : Cache) (acc : Bytes), CacheOK content c →
+      acc = slice (content f.id) off acc.length → acc.length ≤ n →
+      (acc.length = 0 ∨ acc.length = n ∨ NotInside f.table (off + acc.length)) →
+      CacheOK content (readLoop E u f off n fuel c acc).1 ∧
+        ∀ b, (readLoop E u f off n fuel c acc).2 = .ok b → b = slice (content f.id) off n := by
+  intro fuel
+  induction fuel with
+  | zero => intro c acc hc _ _ _; exact ⟨hc, by intro b hb; simp [readLoop] at hb⟩
+  | succ fuel ih =>
+    intro c acc hc hacc hle hinv
+    unfold readLoop
+    simp only []
+    by_cases hlt : acc.length < n
+    · simp only [hlt, if_true]
+      have hl := lookup_spec f.variant hf.contig (off + acc.length)
+      cases hlk : chunkEntryForOffset f.variant f.table (off + acc.length) with
+      | none =>
+        simp only []
+        refine ⟨hc, ?_⟩
+        intro b hb; cases hb
+        have : total f.table ≤ off + acc.length := by
+          by_cases hx : off + acc.length < total f.table
+          · obtain ⟨c0, hc0, _⟩ := hl.1 hx; rw [hlk] at hc0; cases hc0
+          · omega
+        rw [hacc]
+        simp only [slice_length]
+        have hcov := hf.cover
+        rw [show min acc.length ((content f.id).length - off) = min acc.length ((content f.id).length - off) from rfl]
+        have hlen : acc.length = min acc.length ((content f.id).length - off) := by
+          have := congrArg List.length hacc; simpa using this
+        rw [← hlen]
+        exact slice_all_of_short _ _ _ _ (by omega) hle
+      | some ch =>
+        simp only []
+        have hx : off + acc.length < total f.table := by
+          by_cases hx : off + acc.length < total f.table
+          · exact hx
+          · have := hl.2 (by omega); rw [hlk] at this; cases this
+        obtain ⟨c0, hc0, hmem, hb1, hb2⟩ := hl.1 hx
+        rw [hlk] at hc0; cases hc0
+        have hinv' : acc.length = 0 ∨ NotInside f.table (off + acc.length) := by
+          rcases hinv with h | h | h
+          · exact Or.inl h
+          · omega
+          · exact Or.inr h
+        have hr := round_facts hf off n acc.length hlt hinv' ch hmem hb1 hb2
+        simp only [] at hr
+        obtain ⟨hstart, hfit, hnext, hpos, _⟩ := hr
+        by_cases hg : ch.size = 0 ∨ ch.size - (ch.off + ch.size - (off + n)) - (off - ch.off) = 0 ∨
+            ch.size - (ch.off + ch.size - (off + n)) - (off - ch.off) > n - acc.length
+        · simp only [hg, if_true]; exact ⟨hc, by intro b hb; cases hb⟩
+        · simp only [hg, if_false]
+          have hexp : ch.size - (ch.off + ch.size - (off + n)) - (off - ch.off) ≤ n - acc.length := by omega
+          -- what is appended in every successful branch
+          have happ : ∀ s : Bytes,
+              s = slice (trueChunk content ⟨f.id, ch.off, ch.size⟩) (off - ch.off)
+                    (ch.size - (ch.off + ch.size - (off + n)) - (off - ch.off)) →
+              s.length = ch.size - (ch.off + ch.size - (off + n)) - (off - ch.off) →
+              (acc ++ s = slice (content f.id) off (acc ++ s).length) ∧ (acc ++ s).length ≤ n ∧
+              ((acc ++ s).length = 0 ∨ (acc ++ s).length = n ∨ NotInside f.table (off + (acc ++ s).length)) := by
+            intro s hs hslen
+            have h1 : s = slice (content f.id) (off + acc.length)
+                (ch.size - (ch.off + ch.size - (off + n)) - (off - ch.off)) := by
+              rw [hs]; unfold trueChunk; simp only []
+              rw [slice_slice _ _ _ _ _ hfit, hstart]
+            have hl2 : (acc ++ s).length = acc.length + (ch.size - (ch.off + ch.size - (off + n)) - (off - ch.off)) := by
+              simp [hslen]
+            refine ⟨?_, by omega, ?_⟩
+            · rw [hl2, ← slice_append, ← hacc, ← h1]
+            · rw [hl2]
+              rcases hnext hexp with h | h
+              · exact Or.inr (Or.inl h)
+              · exact Or.inr (Or.inr h)
+          -- the hit test
+          cases hcid : c ⟨f.id, ch.off, ch.size⟩ with
+          | some d =>
+            simp only []
+            by_cases hfull : (slice d (off - ch.off) (ch.size - (ch.off + ch.size - (off + n)) - (off - ch.off))).length =
+                ch.size - (ch.off + ch.size - (off + n)) - (off - ch.off)
+            · simp only [hfull, if_true]
+              obtain ⟨k, hk⟩ := hc _ d hcid
+              have hs := slice_take_full (trueChunk content ⟨f.id, ch.off, ch.size⟩) k _ _ (by rw [← hk]; exact hfull)
+              rw [← hk] at hs
+              obtain ⟨a1, a2, a3⟩ := happ _ hs hfull
+              exact ih c _ hc a1 a2 a3
+            · simp only [hfull, if_false]
+              -- falls through to the miss path
+              have hfc := fetchChunk_ok hu c ⟨f.id, ch.off, ch.size⟩ hc
+              rcases hfe : fetchChunk E u c ⟨f.id, ch.off, ch.size⟩ with ⟨c1, r⟩
+              rw [hfe] at hfc
+              cases r with
+              | none => exact ⟨hfc.1, by intro b hb; cases hb⟩
+              | some b =>
+                simp only []
+                obtain ⟨hbt, hbl⟩ := hfc.2 b rfl
+                simp only [] at hbl
+                by_cases hz : off - ch.off = 0 ∧ ch.off + ch.size - (off + n) = 0
+                · simp only [hz, and_self, if_true]
+                  have hs : b = slice (trueChunk content ⟨f.id, ch.off, ch.size⟩) (off - ch.off)
+                      (ch.size - (ch.off + ch.size - (off + n)) - (off - ch.off)) := by
+                    rw [hz.1, hz.2, ← hbt]; unfold slice; simp [hbl]
+                  obtain ⟨a1, a2, a3⟩ := happ b hs (by rw [hbl, hz.1, hz.2]; simp)
+                  exact ih c1 _ hfc.1 a1 a2 a3
+                · simp only [hz, if_false]
+                  by_cases hsl : (slice b (off - ch.off) (ch.size - (ch.off + ch.size - (off + n)) - (off - ch.off))).length ≠
+                      ch.size - (ch.off + ch.size - (off + n)) - (off - ch.off)
+                  · simp only [hsl, if_true]; exact ⟨hfc.1, by intro b hb; cases hb⟩
+                  · simp only [hsl, if_false]
+                    obtain ⟨a1, a2, a3⟩ := happ _ (by rw [hbt]) (by simpa using hsl)
+                    exact ih c1 _ hfc.1 a1 a2 a3
+          | none =>
+            simp only []
+            have hfc := fetchChunk_ok hu c ⟨f.id, ch.off, ch.size⟩ hc
+            rcases hfe : fetchChunk E u c ⟨f.id, ch.off, ch.size⟩ with ⟨c1, r⟩
+            rw [hfe] at hfc
+            cases r with
+            | none => exact ⟨hfc.1, by intro b hb; cases hb⟩
+            | some b =>
+              simp only []
+              obtain ⟨hbt, hbl⟩ := hfc.2 b rfl
+              simp only [] at hbl
+              by_cases hz : off - ch.off = 0 ∧ ch.off + ch.size - (off + n) = 0
+              · simp only [hz, and_self, if_true]
+                have hs : b = slice (trueChunk content ⟨f.id, ch.off, ch.size⟩) (off - ch.off)
+                    (ch.size - (ch.off + ch.size - (off + n)) - (off - ch.off)) := by
+                  rw [hz.1, hz.2, ← hbt]; unfold slice; simp [hbl]
+                obtain ⟨a1, a2, a3⟩ := happ b hs (by rw [hbl, hz.1, hz.2]; simp)
+                exact ih c1 _ hfc.1 a1 a2 a3
+              · simp only [hz, if_false]
+                by_cases hsl : (slice b (off - ch.off) (ch.size - (ch.off + ch.size - (off + n)) - (off - ch.off))).length ≠
+                    ch.size - (ch.off + ch.size - (off + n)) - (off - ch.off)
+                · simp only [hsl, if_true]; exact ⟨hfc.1, by intro b hb; cases hb⟩
+                · simp only [hsl, if_false]
+                  obtain ⟨a1, a2, a3⟩ := happ _ (by rw [hbt]) (by simpa using hsl)
+                  exact ih c1 _ hfc.1 a1 a2 a3
+    · simp only [hlt, if_false]
+      refine ⟨hc, ?_⟩
+      intro b hb; cases hb
+      have : acc.length = n := by omega
+      rw [← this]; exact hacc
 
 end SV.LazyRead
